@@ -278,8 +278,22 @@ fn case_hilbert(r: &mut Rng, big: bool) -> Out {
     let max_order = if dim == 2 { 32 } else { 21 };
     let order = pick_order(r, max_order);
     let threads = *r.pick(&POOLS);
+    // malformed stream (outside the contract; HilbertCurve does not check lengths, the model
+    // follows its zips): weights / ids shorter or longer than the points
+    let mut ws = ws;
+    let mut plen = n;
+    let mut malformed = false;
+    if r.chance(1, 15) {
+        malformed = true;
+        match r.below(4) {
+            0 => ws.truncate(n.saturating_sub(1 + r.below(2) as usize)),
+            1 => ws.extend((0..1 + r.below(2)).map(|_| 1.0)),
+            2 => plen = n + 1 + r.below(2) as usize,
+            _ => plen = n.saturating_sub(1 + r.below(2) as usize),
+        }
+    }
     let exact = weights_exact(&ws);
-    let p0: Vec<usize> = vec![usize::MAX; n];
+    let p0: Vec<usize> = vec![usize::MAX; plen];
 
     let _ = coupe::verif::drain();
     let (pts2, ws2, p02) = (pts.clone(), ws.clone(), p0.clone());
@@ -305,10 +319,11 @@ fn case_hilbert(r: &mut Rng, big: bool) -> Out {
     let splits = take(&recs, "hilbert_splits");
 
     let coq = format!(
-        "CHil {} {} {} {} {} {} {} {} {}",
+        "CHil {} {} {} {} {} {} {} {} {} {}",
         dim,
         order,
         part_count,
+        n,
         coq_nlist(ws.iter().map(|w| w.to_bits() as u128)),
         coq_bool(exact),
         coq_nlist(idx.iter().map(|x| *x as u128)),
@@ -317,16 +332,16 @@ fn case_hilbert(r: &mut Rng, big: bool) -> Out {
         coq_impl(&res)
     );
     let json = format!(
-        "{{\"stream\":\"hilbert\",\"dim\":{},\"points\":{},\"weights\":{},\"part_count\":{},\"order\":{},\"threads\":{},\"exact_sums\":{},\"hilbert_indices\":{},\"hilbert_splits\":{},\"impl\":{}}}",
-        dim, json_points(&pts, dim), json_f64s(&ws), part_count, order, threads, exact,
+        "{{\"stream\":\"hilbert\",\"dim\":{},\"points\":{},\"weights\":{},\"ids_len\":{},\"part_count\":{},\"order\":{},\"threads\":{},\"exact_sums\":{},\"hilbert_indices\":{},\"hilbert_splits\":{},\"impl\":{}}}",
+        dim, json_points(&pts, dim), json_f64s(&ws), plen, part_count, order, threads, exact,
         json_u64s(&idx), json_u64s(&splits), json_impl(&res)
     );
     Out {
         coq,
         json,
-        key: format!("hil|{}|{:?}|{:?}|{}|{}|{}", dim, pts, ws, part_count, order, threads),
-        nontrivial: n >= 3 && part_count >= 2 && order <= max_order,
-        family: format!("hil/{}d/{}/{}", dim, pfam, wfam),
+        key: format!("hil|{}|{:?}|{:?}|{}|{}|{}|{}", dim, pts, ws, plen, part_count, order, threads),
+        nontrivial: n >= 3 && part_count >= 2 && order <= max_order && !malformed,
+        family: format!("hil/{}d/{}/{}{}", dim, pfam, wfam, if malformed { "/len_mismatch" } else { "" }),
         hang: matches!(res, Guarded::Hang),
         panic: matches!(res, Guarded::Panic(_)),
     }
